@@ -60,9 +60,9 @@ CHECKS["C12"] = dict(
     technique="TLA+ residual / fixed-point / explicit-step predicates evaluated by TLC on lifted solver results")
 
 CHECKS["C09"] = dict(
-    text="FVLifecycle.tla models objects, sharing, dirty bits, caches and ghost freshness with one action per public call, written like the code. TLC checks all histories to a depth (3 variables, 3 BC objects, symmetry-reduced, about 1e6 states in the thorough tier) for: a solve never reads a missing or (for unshared BC objects) stale cache, ghost layer and cache fresh after solve/apply, explicit result usable, copies/operator results independent, clean flags imply fresh caches. The unrestricted freshness invariant fails only through a shared BC object - TLC's counterexample is replayed into real objects on 7 grid classes (known finding). TLC -simulate behaviours over the full alphabet are replayed step by step into real objects; every solvePDE is compared bit-for-bit with the solve of a freshly constructed variable, freshness is observed semantically after every step.",
+    text="FVLifecycle.tla models objects, sharing, dirty bits, caches and ghost freshness with one action per public call, written like the code. TLC checks all histories to a depth (3 variables, 3 BC objects, symmetry-reduced, about 1e6 states in the thorough tier) for: a solve never reads a missing or (for unshared BC objects) stale cache, ghost layer and cache fresh after solve/apply, explicit result usable, copies/operator results independent, clean flags imply fresh caches. The unrestricted freshness invariant fails only through a shared BC object - TLC's counterexample is replayed into real objects on 7 grid classes (known finding). Every transition of two bounded state graphs (2 variables to depth 4; 1 variable, both sides, seven kinds of boundary edits incl. periodic on/off and single-coefficient assignment, to depth 5 quick / 7 thorough) and TLC -simulate behaviours over the full alphabet are replayed step by step into real objects on 7 grid classes in three construction styles (interior values / ghost-inclusive float / ghost-inclusive integer array); every solvePDE and a probe solve after every edge are compared bit-for-bit with the solve of a freshly constructed variable. Code -> spec: the public calls of 7 (quick) / 17 (thorough) repository tests, of random programs and of the shared-BC scenario are recorded through the env-guarded hooks and validated in full by FVLifecycleTrace (object slots recycled through Drop events). Extras in the thorough tier: Apalache discharges an inductive invariant of the lifecycle core (pools of 3) and TLAPS proves it for arbitrary pools (spec/proofs/FVLifecycleIndProof.tla, 38 obligations).",
     ref="DESIGN.md 5/C09",
-    note="bounded pools and depth; manual flag resets outside the alphabet; simulated behaviours are seeded samples beyond the exhaustive depth",
+    note="exhaustive exploration bounded in pools and depth; manual flag resets outside the alphabet; simulated behaviours are seeded samples beyond the exhaustive depth; the Apalache / TLAPS results are about the model, the binding to the code is by replay and trace validation",
     technique="TLA+ lifecycle model checked by TLC (exhaustive + simulate) and replayed into the real objects with a fresh-start oracle")
 CHECKS["C14"] = dict(
     text="Object level: FVLifecycle's Copy/Arith/funceval actions (deep copy of the left-most operand's BC object, fresh ghost layer, disjoint storage) are an invariant of the TLC-checked model and are replayed into real objects on 7 grid classes: results share no storage / BC object / BC arrays with operands, operands stay byte-identical, result BCs equal the left operand's and its boundary values are consistent with them, copy() is equal and independent. Value level: the operator table is enumerated and each request executed on CellVariables and FaceVariables.",
